@@ -29,6 +29,7 @@ ASSUMPTIONS = [
     "resample accuracy bound per pts calibrated on the pinned tree (3x the observed interior error of a 0.05*sr sinusoid)",
 ]
 EXHAUSTIVE = True
+ISOLATE_SHARDS = True  # rescale / resample / fixtime histories start from the import-time module state
 
 
 def bounds(tier):
@@ -330,6 +331,57 @@ def _rescale_oracle(case, out, F, P2, FLin, FUin, total, Pout, Fctr, msv, ms, ex
         msgs.append((case, "msv %r is not the sum of the band mean squares %r" % (msv1.tolist(), ms2.sum(axis=0).tolist())))
     if not ext and lo[0] <= FLin[0] * (1 + 1e-12) and hi[-1] >= FUin[-1] * (1 - 1e-12) and not np.allclose(msv1, total, rtol=1e-9):
         msgs.append((case, "output bands cover the input range but the mean square is not conserved: %r vs %r" % (msv1.tolist(), total.tolist())))
+    return msgs
+
+
+def check_rescale_history(res):
+    """call-history invariance: a menu of rescale calls that share output band layouts (same octave scale, same
+    upper frequency) but differ in resolution and lower coverage is executed forwards and backwards; every call
+    of both passes is held to the brute-force band integral, and the two passes must agree call by call"""
+    from pyyeti import psd
+
+    msgs = []
+    datasets = {
+        "fine": np.linspace(0.5, 40.0, 159),
+        "lin1": np.arange(1.0, 41.0),
+        "from10": np.arange(10.0, 41.0),
+        "coarse": np.arange(4.0, 41.0, 4.0),
+        "from20": np.arange(20.0, 41.0, 0.5),
+    }
+    calls = []
+    for dname in datasets:
+        for n_oct in (1, 3, 6):
+            for frange in (None, (5.0, 100.0), (20.0, 2000.0)):
+                for ext in (True, False):
+                    calls.append((dname, n_oct, frange, ext))
+    results = {}
+    for order_name, seq in (("forward", calls), ("backward", calls[::-1]), ("forward-again", calls)):
+        for dname, n_oct, frange, ext in seq:
+            F = datasets[dname]
+            P = 1.0 + np.cos(np.arange(len(F))) ** 2
+            FLin, FUin, kind = band_edges(F)
+            total = (P.reshape(-1, 1) * (FUin - FLin)[:, None]).sum(axis=0)
+            kw = dict(extendends=ext)
+            if frange is not None:
+                kw["frange"] = frange
+            case = dict(part="rescale_hist", data=dname, n_oct=n_oct, frange=frange, ext=ext, order=order_name)
+            try:
+                Pout, Fctr, msv, ms = psd.rescale(P, F, n_oct=n_oct, **kw)
+            except ValueError as e:
+                if "zero-size" in str(e) or "attempt to get" in str(e):
+                    res.exit("rescale: no output band overlaps the data")
+                    continue
+                msgs.append((case, "rescale raised %r" % (e,)))
+                continue
+            res.ev("rescale/history/%s" % order_name)
+            msgs += _rescale_oracle(case, ("n_oct", n_oct), F, P.reshape(-1, 1), FLin, FUin, total, Pout, Fctr, msv, ms, ext, frange, True)
+            key = (dname, n_oct, frange, ext)
+            if key in results:
+                a = results[key]
+                if not (np.array_equal(a[0], Pout) and np.array_equal(a[1], Fctr) and np.array_equal(a[2], ms)):
+                    msgs.append((case, "the same rescale call returns a different result depending on the calls made before it (pass %s)" % order_name))
+            else:
+                results[key] = (np.array(Pout), np.array(Fctr), np.array(ms))
     return msgs
 
 
@@ -749,8 +801,16 @@ def shards(tier, seed):
                 out.append(dict(part="fixtime", first=first, L=L))
     out.append(dict(part="fixtime_long"))
     out.append(dict(part="fixtime_refusals"))
+    out.append(dict(part="rescale_hist"))
     r = seed % len(out)
     return out[r:] + out[:r]
+
+
+def _same(a, b):
+    """equality after a JSON round trip (replay files turn tuples into lists)"""
+    from vf.core import jdumps
+
+    return jdumps(a) == jdumps(b)
 
 
 def _run(sh, res):
@@ -764,12 +824,12 @@ def _run(sh, res):
     if part == "rescale":
         m = check_rescale(sh["scale"], res)
         if "pat" in sh:
-            m = [x for x in m if all(x[0].get(k) == sh[k] for k in ("pat", "out", "frange", "ext"))]
+            m = [x for x in m if all(_same(x[0].get(k), sh[k]) for k in ("pat", "out", "frange", "ext"))]
         return m
     if part == "resample":
         m = check_resample(sh["p"], sh["q"], res)
         if "n" in sh:
-            m = [x for x in m if all(x[0].get(k) == sh.get(k) for k in ("n", "pts", "acc"))]
+            m = [x for x in m if all(_same(x[0].get(k), sh.get(k)) for k in ("n", "pts", "acc"))]
         return m
     if part == "fixtime":
         if "steps" in sh:
@@ -797,6 +857,11 @@ def _run(sh, res):
         return check_fixtime(sh["first"], sh["L"], res, variants)
     if part == "fixtime_refusals":
         return check_fixtime_refusals(res)
+    if part == "rescale_hist":
+        m = check_rescale_history(res)
+        if "data" in sh:
+            m = [x for x in m if all(_same(x[0].get(k), sh.get(k)) for k in ("data", "n_oct", "frange", "ext", "order"))]
+        return m
     if part == "fixtime_long":
         m = check_fixtime_long(res)
         if "rec" in sh:
